@@ -303,7 +303,8 @@ def parse_task(task, wdir, res):
                 rule, fail = verdict_cache[text]
                 if rule:
                     res.violation(rule, {"generator": g, "family": fam}, f"{len(text)} chars: {text[:80]!r}... -> child {fail}", {"input": text[:3000], "seed": task["seed"], "length": len(text)})
-            pending = [x for x in pending if x not in set(known_bad)]
+            kb = set(known_bad)
+            pending = [x for x in pending if x not in kb]
             continue
         results, failure = run_vunit(wdir, cfg_path, [items[i][2] for i in batch], False, 120)
         if failure is None:
@@ -472,9 +473,10 @@ def dispatch_task(task, wdir, res):
 
 def run(run):
     quick = run.tier == "quick"
-    run.parallel(parse_task, [{"name": f"p{i}", "seed": run.rng("p", i).getrandbits(40), "n": 20000 if quick else 600000} for i in range(16)])
-    run.parallel(structure_task, [{"name": f"s{i}", "seed": run.rng("s", i).getrandbits(40), "n": 1500 if quick else 20000} for i in range(8 if quick else 16)])
-    run.parallel(dispatch_task, [{"name": f"d{i}", "seed": run.rng("d", i).getrandbits(40), "n": 200 if quick else 6000} for i in range(16)])
+    # the thorough tier scales the number of tasks, not their size: a task keeps all its inputs in memory (65 KiB random texts, 400 KB nests)
+    run.parallel(parse_task, [{"name": f"p{i}", "seed": run.rng("p", i).getrandbits(40), "n": 20000} for i in range(16 if quick else 320)])
+    run.parallel(structure_task, [{"name": f"s{i}", "seed": run.rng("s", i).getrandbits(40), "n": 1500} for i in range(8 if quick else 160)])
+    run.parallel(dispatch_task, [{"name": f"d{i}", "seed": run.rng("d", i).getrandbits(40), "n": 200} for i in range(16 if quick else 320)])
     run.min_distinct = 60
     run.assumptions = ["termination is judged as bounded progress: a child that does not answer a batch within 120 s (or a single input within 60 s, "
                        "3 times in isolation) is a violation; once is inconclusive", "expected trees for same-operator chains are printed with explicit "
